@@ -229,7 +229,20 @@ func (w *World) loopHead(fr *Frame, st *State, h *ssa.BasicBlock, k int) {
 	// havoc what the loop may write
 	cells, keys, all := w.loopWrites(fr, fr.loops.body[h])
 	if all {
+		keep := map[string]Term{}
+		written := map[string]bool{}
+		for _, k := range keys {
+			written[k] = true
+		}
+		for k := range w.loopPreserved {
+			if !written[k] {
+				keep[k] = w.hget(st, k)
+			}
+		}
 		w.havocAll(st)
+		for k, v := range keep {
+			st.heap[k] = v
+		}
 	} else {
 		oa := w.hget(st, allocKey)
 		na := w.sc.fresh("$alloc~", SInt)
@@ -248,7 +261,20 @@ func (w *World) loopHead(fr *Frame, st *State, h *ssa.BasicBlock, k int) {
 				continue
 			}
 			idxSort, _, isArr := arrayParts(w.heapSort[key])
-			precise := isArr && idxSort == SInt && !w.loopWhole[key]
+			declaredWhole := false
+			for _, m := range ls.Modifies {
+				if e, err := parseCExpr(m); err == nil && (e.Op == "call" || e.Op == "sel") {
+					func() {
+						defer func() { recover() }()
+						for _, k := range w.preservedKeys(w.contractEnv(fr, st, fr.entry), e) {
+							if k == key {
+								declaredWhole = true
+							}
+						}
+					}()
+				}
+			}
+			precise := isArr && idxSort == SInt && !w.loopWhole[key] && !declaredWhole
 			freshOnly := w.loopFreshOnly[key]
 			var targets []Term
 			if precise {
@@ -533,6 +559,7 @@ func (w *World) loopWrites(fr *Frame, blocks []*ssa.BasicBlock) (cells []cellID,
 	w.loopWhole = map[string]bool{}
 	w.loopFreshOnly = map[string]bool{}
 	w.loopKeysExtra = nil
+	w.loopPreserved = nil
 	addKey := func(k string) {
 		if !seenK[k] {
 			seenK[k] = true
@@ -617,6 +644,7 @@ func (w *World) loopWrites(fr *Frame, blocks []*ssa.BasicBlock) (cells []cellID,
 					w.callWrites(fr, fn, &t.Call, addKey, &all, depth, scan)
 				case *ssa.Defer:
 					all = true
+					w.loopPreserved = map[string]bool{} // an unknown writer: nothing is known to survive
 				case *ssa.RunDefers:
 				}
 			}
@@ -684,6 +712,10 @@ type loopKeyPolicy struct {
 // loopWriteCheck: a write to (key, ref) inside loops of the function under
 // contract must respect the frame each enclosing loop head assumed.
 func (w *World) loopWriteCheck(fr *Frame, st *State, key string, ref Term) {
+	w.loopWriteCheckIf(fr, st, key, ref, tTrue)
+}
+
+func (w *World) loopWriteCheckIf(fr *Frame, st *State, key string, ref Term, when Term) {
 	if !fr.top || fr.loops == nil || w.curBlock == nil || fr.loopPolicy == nil {
 		return
 	}
@@ -711,7 +743,7 @@ func (w *World) loopWriteCheck(fr *Frame, st *State, key string, ref Term) {
 		if fr.contract != nil {
 			props = fr.contract.Props
 		}
-		w.oblige("loop.write", fmt.Sprintf("loopwrite.%d.%s.fresh-object", w.callOrd["loopwrite"], key), st.cond, or(alts...), false, props)
+		w.oblige("loop.write", fmt.Sprintf("loopwrite.%d.%s.fresh-object", w.callOrd["loopwrite"], key), and(st.cond, when), or(alts...), false, props)
 	}
 }
 
@@ -803,6 +835,7 @@ func (w *World) callWrites(fr *Frame, fn *ssa.Function, c *ssa.CallCommon, addKe
 				if cct := w.contractFor(cand); cct != nil && !cct.Inline {
 					if cct.ModAll || (!cct.ModStated && cct.Kind == "func") {
 						*all = true
+						w.loopPreserved = map[string]bool{} // an unknown writer: nothing is known to survive
 						return
 					}
 					for _, k := range w.contractKeys(cct, cand) {
@@ -812,6 +845,7 @@ func (w *World) callWrites(fr *Frame, fn *ssa.Function, c *ssa.CallCommon, addKe
 					scan(cand, -1, cand.Blocks, depth+1)
 				} else {
 					*all = true
+					w.loopPreserved = map[string]bool{} // an unknown writer: nothing is known to survive
 				}
 			}
 			return
@@ -821,6 +855,26 @@ func (w *World) callWrites(fr *Frame, fn *ssa.Function, c *ssa.CallCommon, addKe
 	if ct != nil && !ct.Inline {
 		if ct.ModAll || (!ct.ModStated && ct.Kind == "func") {
 			*all = true
+			// keys every "modifies all" callee of the loop promises to leave unchanged survive the havoc
+			pres := map[string]bool{}
+			if len(ct.Preserves) > 0 {
+				env := &CEnv{w: w, pkg: contractPkg(w, ct, callee), vars: map[string]*Val{}, cur: &State{cond: tTrue, heap: map[string]Term{}, cells: map[cellID]Term{}}}
+				env.old = env.cur
+				for _, pe := range ct.Preserves {
+					for _, k := range w.preservedKeys(env, pe) {
+						pres[k] = true
+					}
+				}
+			}
+			if w.loopPreserved == nil {
+				w.loopPreserved = pres
+			} else {
+				for k := range w.loopPreserved {
+					if !pres[k] {
+						delete(w.loopPreserved, k)
+					}
+				}
+			}
 			return
 		}
 		for _, k := range w.contractKeys(ct, callee) {
@@ -833,6 +887,7 @@ func (w *World) callWrites(fr *Frame, fn *ssa.Function, c *ssa.CallCommon, addKe
 		return
 	}
 	*all = true
+	w.loopPreserved = map[string]bool{} // an unknown writer: nothing is known to survive
 }
 
 func (w *World) inModule(f *ssa.Function) bool {
